@@ -188,10 +188,14 @@ impl InformationObject {
         match &mut self.fields {
             InformationObjectFields::DefaultSyntax(d) => d
                 .iter_mut()
-                .any(|field| field.link_object_set_reference(tlds)),
+                .fold(false, |linked, field| {
+                    field.link_object_set_reference(tlds) || linked
+                }),
             InformationObjectFields::CustomSyntax(c) => c
                 .iter_mut()
-                .any(|field| field.link_object_set_reference(tlds)),
+                .fold(false, |linked, field| {
+                    field.link_object_set_reference(tlds) || linked
+                }),
         }
     }
 
@@ -228,13 +232,15 @@ impl ObjectSetValue {
                 _ => None,
             },
             ObjectSetValue::Inline(InformationObjectFields::CustomSyntax(c)) => {
-                c.iter_mut()
-                    .any(|field| field.link_object_set_reference(tlds));
+                c.iter_mut().fold(false, |linked, field| {
+                    field.link_object_set_reference(tlds) || linked
+                });
                 None
             }
             ObjectSetValue::Inline(InformationObjectFields::DefaultSyntax(d)) => {
-                d.iter_mut()
-                    .any(|field| field.link_object_set_reference(tlds));
+                d.iter_mut().fold(false, |linked, field| {
+                    field.link_object_set_reference(tlds) || linked
+                });
                 None
             }
         }
